@@ -121,6 +121,17 @@ class FileParser:
         groups["file"].merge(groups["directive"])
 
     @staticmethod
+    def is_directive(logical_line):
+        """
+        Return True if the logical line is a preprocessor directive, i.e.
+        if its first token is '#'. A line starting with the token '##'
+        (e.g. a stray paste operator) is not a directive; it is code.
+        """
+        if logical_line.category != "CPP_DIRECTIVE":
+            return False
+        return not logical_line.flushed_line.lstrip(" ").startswith("##")
+
+    @staticmethod
     def insert_code_node(tree, line_group):
         """
         Build a code node, and insert it into the source tree
@@ -192,7 +203,7 @@ class FileParser:
                     logical_line = next(source)
                     phys_int = logical_line.phys_interval()
                     # Only follow continuation for directives
-                    if logical_line.category == "CPP_DIRECTIVE":
+                    if FileParser.is_directive(logical_line):
                         # Add this into the directive lines, even if it
                         # might not be a directive we count
 
